@@ -14,6 +14,13 @@ Correspondence between /repo/amaranth/lib/wiring.py and lean/AmaranthVerif/Model
 * `connect(m, ...)`: accepted / error kind, the assignments added to the module, and a simulation
   in which every output leaf is set and every leaf read back           -> model `connect`, spec `Accepts`/`conns`
 * `Component.metadata.as_json()` port records + schema validation       -> model `metadata`
+* Component classes whose members are variable annotations, with inheritance (base, sibling subclasses, a second
+  level, a class without annotations in between, a subclass redefining a member), instantiated in varied orders:
+  every instance has the union of the annotations along the MRO of its own class                -> leaves / metadata
+                                                                           (model/spec) of that union, connect + simulation
+* a kept `flipped(intf)` proxy, used, then a sub-interface of the wrapped object replaced (attribute, array element,
+  one level down, or through the proxy), then used again: flatten reaches the signals `intf` holds now (identity),
+  connect wires them                                                    -> leaves (model/spec), model `connect`
 
 Signature trees are abstract (plain dicts); the amaranth objects are *built* from them, and the
 same tree is serialised for the driver.  Port shapes include shape-castables whose default constant
@@ -1018,9 +1025,11 @@ def ser_args(args):
     return "(connect " + " ".join(out) + ")"
 
 
-def run_connect(args, order, rng_seed, simulate, obj_edit=None, routes=None, reuse=None):
+def run_connect(args, order, rng_seed, simulate, obj_edit=None, routes=None, reuse=None, makers=None):
     """build the real objects (argument h by `routes[h]`, default `S.create()`), connect them in `order`;
-    returns observation dict.  `reuse`: the signatures are built from that pool of Member objects"""
+    returns observation dict.  `reuse`: the signatures are built from that pool of Member objects.
+    `makers`: {h: callable(S, path)} - argument h is whatever that callable returns (an object that is to
+    behave as an interface for the h-th abstract tree; its leaves are found by raw navigation as for the others)"""
     from amaranth.hdl import Module, Const, Signal, Value, Shape
     from amaranth.lib import wiring
     from amaranth.sim import Simulator
@@ -1030,7 +1039,10 @@ def run_connect(args, order, rng_seed, simulate, obj_edit=None, routes=None, reu
     leaves = {}        # (handle, path) -> dict(kind, value object, w, init)
     for h, (fl, sig, consts) in enumerate(args):
         S = build_sig(sig, fl, reuse=reuse)
-        obj = route_obj(S, routes[h] if routes else "create", path=(f"h{h}",))
+        if makers and h in makers:
+            obj = makers[h](S, (f"h{h}",))
+        else:
+            obj = route_obj(S, routes[h] if routes else "create", path=(f"h{h}",))
         for p, container, key, m in raw_leaves(obj, sig):
             w, sg, iv = shape_info(m["shape"], m["init"])
             if obj_edit is not None and obj_edit[0] == h and obj_edit[1] == p:
@@ -1116,10 +1128,10 @@ def run_connect(args, order, rng_seed, simulate, obj_edit=None, routes=None, reu
     return res
 
 
-def case_connect(args, label, seed, simulate, routes=None, reuse=None):
+def case_connect(args, label, seed, simulate, routes=None, reuse=None, makers=None):
     rec = {"kind": "connect", "req": ser_args(args), "label": label, "args": args, "routes": routes}
     try:
-        rec["impl"] = run_connect(args, list(range(len(args))), seed, simulate, routes=routes, reuse=reuse)
+        rec["impl"] = run_connect(args, list(range(len(args))), seed, simulate, routes=routes, reuse=reuse, makers=makers)
     except Exception as e:
         rec["impl"] = {"result": "error:build:" + errname(e), "msg": str(e)[:160]}
         return rec
@@ -1129,7 +1141,7 @@ def case_connect(args, label, seed, simulate, routes=None, reuse=None):
         order.reverse()
     rec["order"] = order
     try:
-        rec["perm"] = run_connect(args, order, seed, False, routes=routes, reuse=reuse)
+        rec["perm"] = run_connect(args, order, seed, False, routes=routes, reuse=reuse, makers=makers)
     except Exception as e:
         rec["perm"] = {"result": "error:build:" + errname(e)}
     return rec
@@ -1633,9 +1645,322 @@ def reuse_cases(rng):
 
 
 # ------------------------------------------------------------------------------------------------
+# Component classes whose members are variable annotations, with INHERITANCE: a base class with annotations,
+# subclasses adding members (siblings, a second level, a class in between without annotations, a subclass that
+# redefines a member), instantiated in varied orders.  The signature of an instance is the union of the annotations
+# along the MRO of *its* class (base first), whatever other classes of the hierarchy were instantiated before.
+
+def meta_ports(j):
+    out = []
+
+    def walk(node):
+        if isinstance(node, list):
+            for x in node:
+                walk(x)
+        elif node["type"] == "port":
+            out.append(f"{node['name']}={'o' if node['dir'] == 'out' else 'i'}:{node['width']}:"
+                       f"{'s' if node['signed'] else 'u'}:{int(node['init'])}")
+        else:
+            for _n, x in node["members"].items():
+                walk(x)
+    for _n, x in j["interface"]["members"].items():
+        walk(x)
+    return ";".join(out) or "-"
+
+
+def gen_annot_scenario(rng):
+    """(sig, classes, order, pattern): classes = [(name, parent index or None, own member names, redefines?)]"""
+    for _ in range(100):
+        sig = gen_sig(rng, rng.choice([1, 2, 2, 3]), False)
+        if len(sig) >= 2:
+            break
+    else:
+        sig = [("a", {"t": "port", "f": "o", "shape": {"k": "u", "w": 4}, "init": 3, "dims": []}),
+               ("b", {"t": "port", "f": "i", "shape": {"k": "u", "w": 1}, "init": None, "dims": [2]})]
+    names = [n for n, _m in sig]
+    rng.shuffle(names)
+    nb = rng.randint(1, len(names) - 1)
+    base_own, rest = names[:nb], names[nb:]
+
+    def subset(pool, allow_empty=False):
+        pool = list(pool)
+        if not pool:
+            return []
+        k = rng.randint(0 if allow_empty else 1, len(pool))
+        return rng.sample(pool, k)
+    classes = [("Base", None, base_own, False)]
+    d1 = subset(rest)
+    classes.append(("D1", 0, d1, False))
+    if rng.random() < .6:
+        classes.append(("D2", 0, subset(rest), False))                    # a sibling (may declare the same names as D1)
+    if rng.random() < .5:
+        classes.append(("E", 1, subset([n for n in rest if n not in d1], True), False))   # second level
+    if rng.random() < .4:
+        classes.append(("Mid", 0, [], False))                             # no annotations of its own
+        classes.append(("F", len(classes) - 1, subset(rest), False))
+    if rng.random() < .35:
+        par = rng.randrange(len(classes))
+        inherited = class_names(classes, par)
+        classes.append(("R", par, [rng.choice(inherited)] + subset([n for n in rest if n not in inherited], True), True))
+    others = list(range(1, len(classes)))
+    pattern = rng.choice(["base-first", "base-first", "derived-first", "base-never", "random"])
+    rng.shuffle(others)
+    if pattern == "base-first":
+        order = [0] + others
+    elif pattern == "derived-first":
+        order = others + [0]
+    elif pattern == "base-never":
+        order = list(others)
+    else:
+        order = [rng.randrange(len(classes)) for _ in range(rng.randint(3, 6))]
+    order += [rng.randrange(len(classes)) for _ in range(rng.choice([0, 1, 2]))]       # repeated instantiation
+    return sig, classes, order[:8], pattern
+
+
+def class_names(classes, i):
+    """member names of class i: the annotations along its chain of bases, base first"""
+    _n, par, own, _r = classes[i]
+    return (class_names(classes, par) if par is not None else []) + [n for n in own]
+
+
+def annot_cases(rng, scenario=None):
+    from amaranth.lib import wiring
+    sig, classes, order, pattern = scenario or gen_annot_scenario(rng)
+    bysig = dict(sig)
+    full = build_sig(sig)                       # the Member objects written as annotations
+    narrow = {"t": "port", "f": "o", "shape": {"k": "u", "w": 1}, "init": None, "dims": []}
+    real = []
+    for name, par, own, redef in classes:
+        ann = {n: full.members[n] for n in own}
+        if redef:
+            ann[own[0]] = wiring.Out(1)         # the same name again, in a subclass: NameError
+        real.append(type(name, (real[par] if par is not None else wiring.Component,), {"__annotations__": ann}))
+    shape = "+".join(c[0] for c in classes[1:])
+    recs = []
+    made = []                                   # indices instantiated so far, in order
+
+    def ancestors(i):
+        out = []
+        while classes[i][1] is not None:
+            i = classes[i][1]
+            out.append(i)
+        return out
+    for i in order:
+        name, par, own, redef = classes[i]
+        cnames = class_names(classes, i)
+        csig = [(n, bysig[n]) for n in (cnames if not redef else class_names(classes, par))]
+        info = {"hierarchy": shape, "pattern": pattern, "class": name, "own": list(own), "redefines": redef,
+                "classes": [[c[0], (classes[c[1]][0] if c[1] is not None else None), list(c[2])] for c in classes],
+                "instantiated_before": [classes[k][0] for k in made],
+                "ancestor_before": any(a in made for a in ancestors(i)), "nth": made.count(i)}
+        rec = {"kind": "annot", "req": f"(flatten {ser_sv(False, csig)})", "sig": csig, "annot": info}
+        made.append(i)
+        recs.append(rec)
+        try:
+            comp = real[i]()
+            rec["build"] = "ok"
+        except Exception as e:
+            rec["build"] = "error:" + type(e).__name__ + ":" + str(e)[:80]
+            continue
+        try:
+            rec["names"] = sorted(comp.signature.members)
+        except Exception as e:
+            rec["names"] = "error:" + errname(e)
+        if redef:
+            continue
+        expected = build_sig(csig)              # the expected signature, written independently of the class
+        for key, SS in (("top", None), ("top_expected", expected)):
+            try:
+                rec[key] = impl_flatten(comp.signature if SS is None else SS, comp)
+            except Exception as e:
+                rec[key] = "error:" + errname(e)
+        try:
+            rec["nested"] = impl_nested(comp, csig)
+        except Exception as e:
+            rec["nested"] = "error:" + errname(e)
+        try:
+            rec["compliant"] = "ok:" + str(int(expected.is_compliant(comp)))
+        except Exception as e:
+            rec["compliant"] = "error:" + type(e).__name__
+        try:
+            j = comp.metadata.as_json()
+            rec["meta"] = meta_ports(j)
+            wiring.ComponentMetadata.validate(j)
+            rec["valid"] = True
+        except Exception as e:
+            rec.setdefault("meta", "error:" + errname(e) + ":" + str(e)[:80])
+            rec["valid"] = rec.get("valid", "error:" + type(e).__name__)
+    # connect an instance of every (proper) class that was instantiated to an interface made from the flipped
+    # expected signature, and watch the data flow
+    for i in sorted(set(made)):
+        name, par, own, redef = classes[i]
+        if redef:
+            continue
+        csig = [(n, bysig[n]) for n in class_names(classes, i)]
+        r = case_connect([(False, csig, {}), (True, csig, {})], "annot-connect", rng.randrange(1 << 30), True,
+                         makers={0: lambda S, path, cls=real[i]: cls()})
+        r["annot"] = {"hierarchy": shape, "pattern": pattern, "class": name,
+                      "instantiated_before": [classes[k][0] for k in made]}
+        recs.append(r)
+    return recs
+
+
+# ------------------------------------------------------------------------------------------------
+# a KEPT FlippedInterface proxy: `resp = flipped(intf)` is made once, used (or not), then a sub-interface of the
+# wrapped object `intf` is replaced (attribute, array element, one level further down, or - control - through the
+# proxy), then `resp` is used again.  The proxy has no state of its own: what is reached through it is what `intf`
+# holds NOW (identity of the signals), and connect() wires those.
+
+STALE_TOUCH = ("none", "compliant", "flatten", "getattr", "connect", "nested")
+STALE_HOW = ("attr", "attr", "elem", "elem", "deep", "proxy")
+
+
+def _idx(rng, dims):
+    return [rng.randrange(d) for d in dims]
+
+
+def gen_stale_scenario(rng):
+    """(fl, sig, sc)"""
+    def live(sg):
+        return [(n, m) for n, m in sg if m["t"] == "iface" and 0 not in m["dims"]]
+    fl = rng.random() < .5
+    for _ in range(300):
+        sig = gen_sig(rng, rng.choice([2, 3, 3]), fl, iface_arrays=rng.random() < .7)
+        if live(sig) and (_ > 40 or any(m["dims"] or live(m["sig"]) for _n, m in live(sig))):
+            break
+    else:
+        bus = [("x", {"t": "port", "f": "o", "shape": {"k": "u", "w": 8}, "init": None, "dims": []}),
+               ("y", {"t": "port", "f": "i", "shape": {"k": "u", "w": 8}, "init": 2, "dims": []})]
+        sig = [("a", {"t": "iface", "f": "o", "df": False, "sig": bus, "dims": []}),
+               ("b", {"t": "iface", "f": "o", "df": False, "sig": bus, "dims": [2]}),
+               ("z9", {"t": "port", "f": "i", "shape": {"k": "u", "w": 1}, "init": None, "dims": []})]
+    how = rng.choice(STALE_HOW)
+    # prefer a member the chosen kind of replacement applies to (an array / one with sub-interfaces of its own)
+    fit = [(n, m) for n, m in live(sig) if (how != "elem" or m["dims"]) and (how != "deep" or live(m["sig"]))]
+    n, m = rng.choice(fit or live(sig))
+    sc = {"route": rng.choice(["pure", "comp"]), "touch": rng.choice(STALE_TOUCH), "member": n,
+          "index": _idx(rng, m["dims"])}
+    if how == "elem" and not m["dims"]:
+        how = "attr"
+    if how == "deep":
+        sub = live(m["sig"])
+        if sub:
+            k, mk = rng.choice(sub)
+            sc["deep_member"] = k
+            sc["deep_index"] = _idx(rng, mk["dims"])
+            sc["deep_how"] = "elem" if (mk["dims"] and rng.random() < .5) else "attr"
+        else:
+            how = "elem" if m["dims"] else "attr"
+    sc["how"] = how
+    sc["twice"] = rng.random() < .25            # use, replace, use, replace again, use
+    return fl, sig, sc
+
+
+def _at(v, index):
+    for i in index:
+        v = v[i]
+    return v
+
+
+def _put(holder, key, index, donor_holder, whole):
+    """holder[key] (a dict slot holding a sub-interface or nested lists of them): replace the whole value or the
+    element at `index` by the corresponding one of donor_holder"""
+    if whole or not index:
+        holder[key] = donor_holder[key]
+    else:
+        _at(holder[key], index[:-1])[index[-1]] = _at(donor_holder[key], index)
+
+
+def stale_touch(SS, resp, sc):
+    from amaranth.hdl import Module
+    from amaranth.lib import wiring
+    t = sc["touch"]
+    try:
+        if t == "compliant":
+            SS.is_compliant(resp)
+        elif t == "flatten":
+            list(SS.flatten(resp))
+        elif t == "getattr":
+            _at(getattr(resp, sc["member"]), sc["index"])
+        elif t == "nested":
+            v = _at(getattr(resp, sc["member"]), sc["index"])
+            list(v.signature.flatten(v))
+        elif t == "connect":
+            wiring.connect(Module(), resp, SS.flip().create(path=("t",)))
+    except Exception:
+        pass
+
+
+def make_stale(SS, sc, path):
+    """the scenario on an object for SS: returns the kept proxy"""
+    from amaranth.lib import wiring
+    T = SS.flip()
+    intf = route_obj(T, sc["route"], path=path)
+    resp = wiring.flipped(intf)                 # kept by its user
+    for rnd in range(2 if sc["twice"] else 1):
+        donor = route_obj(T, sc["route"], path=tuple(path) + (f"new{rnd}",))
+        stale_touch(SS, resp, sc)
+        n, how = sc["member"], sc["how"]
+        if how == "attr":
+            setattr(intf, n, donor.__dict__[n])
+        elif how == "elem":
+            _put(intf.__dict__, n, sc["index"], donor.__dict__, False)
+        elif how == "proxy":
+            setattr(resp, n, getattr(wiring.flipped(donor), n))
+        else:
+            sub = unwrap(_at(intf.__dict__[n], sc["index"]))
+            dsub = unwrap(_at(donor.__dict__[n], sc["index"]))
+            _put(sub.__dict__, sc["deep_member"], sc["deep_index"], dsub.__dict__, sc["deep_how"] == "attr")
+    return resp
+
+
+def stale_cases(rng, scenario=None):
+    from amaranth.hdl import Value
+    fl, sig, sc = scenario or gen_stale_scenario(rng)
+    rec = {"kind": "stale", "req": f"(flatten {ser_sv(fl, sig)})", "fl": fl, "sig": sig, "stale": sc}
+    recs = [rec]
+    try:
+        SS = build_sig(sig, fl)
+        resp = make_stale(SS, sc, ("intf",))
+        rec["build"] = "ok"
+    except Exception as e:
+        rec["build"] = "error:" + errname(e) + ":" + str(e)[:80]
+        return recs
+    try:
+        rec["top"] = impl_flatten(SS, resp)
+    except Exception as e:
+        rec["top"] = "error:" + errname(e)
+    try:
+        # identity: the signals reached through the proxy are the ones the wrapped object holds now
+        cur = {tuple(p): id(Value.cast(container[key])) for p, container, key, _m in raw_leaves(resp, sig)}
+        seen = {}
+        for p, _m, v in SS.flatten(resp):
+            seen.setdefault(tuple(p), []).append(id(Value.cast(v)))
+        bad = sorted(pstr(p) for p in set(cur) | set(seen) if seen.get(p) != [cur.get(p)])
+        rec["ident"] = bad
+        pre = (sc["member"],) + tuple(sc["index"] if sc["how"] != "attr" and sc["how"] != "proxy" else ())
+        rec["replaced_leaves"] = sum(1 for p in cur if p[:len(pre)] == pre)
+    except Exception as e:
+        rec["ident"] = "error:" + errname(e)
+    try:
+        rec["nested"] = impl_nested(resp, sig)
+    except Exception as e:
+        rec["nested"] = "error:" + errname(e)
+    try:
+        rec["compliant"] = "ok:" + str(int(SS.is_compliant(resp)))
+    except Exception as e:
+        rec["compliant"] = "error:" + type(e).__name__
+    r = case_connect([(fl, sig, {}), (not fl, sig, {})], "stale-" + sc["how"], rng.randrange(1 << 30), True,
+                     makers={0: lambda S, path: make_stale(S, sc, path)})
+    r["stale"] = sc
+    recs.append(r)
+    return recs
+
+
+# ------------------------------------------------------------------------------------------------
 # worker
 
-def work(seed, n_trees, n_tuples, n_meta, quick, n_hetero=0, n_reuse=0):
+def work(seed, n_trees, n_tuples, n_meta, quick, n_hetero=0, n_reuse=0, n_annot=0, n_stale=0):
     import warnings
     warnings.filterwarnings("ignore")
     rng = random.Random(seed)
@@ -1697,6 +2022,10 @@ def work(seed, n_trees, n_tuples, n_meta, quick, n_hetero=0, n_reuse=0):
             recs.append({**case_connect(a, "hetero-" + label, rng.randrange(1 << 30), sim), "hetero": {**info, **where}})
     for _ in range(n_reuse):
         recs.extend(reuse_cases(rng))
+    for _ in range(n_annot):
+        recs.extend(annot_cases(rng))
+    for _ in range(n_stale):
+        recs.extend(stale_cases(rng))
     return recs
 
 
@@ -1726,7 +2055,8 @@ def run(chk):
     workers = min(16, os.cpu_count() or 4)
     n_jobs = workers * (1 if quick else 12)
     per = {"trees": 14 if quick else 40, "tuples": 9 if quick else 30, "meta": 6 if quick else 8,
-           "hetero": 4 if quick else 16, "reuse": 3 if quick else 12}
+           "hetero": 4 if quick else 16, "reuse": 3 if quick else 12, "annot": 3 if quick else 10,
+           "stale": 5 if quick else 16}
     seeds = [chk.rng.randrange(1 << 30) for _ in range(n_jobs)]
     recs = []
     # fixed witnesses first: F10 (p19), F13, dims boundary (p16)
@@ -1765,9 +2095,28 @@ def run(chk):
         recs.append({**case_flatten(False, wsig, reuse=wR), "witness": f"reuse/{step}", "reuse": tag})
         recs.append({**case_connect([(False, wsig, {}), (True, wsig, {})], "witness-reuse", 1, True, reuse=wR),
                      "witness": f"reuse-connect/{step}", "reuse": tag})
+    # annotated Component classes: the base class is instantiated first, then a subclass adding two members
+    def u(f, w, init=None, dims=()):
+        return {"t": "port", "f": f, "shape": {"k": "u", "w": w}, "init": init, "dims": list(dims)}
+    link = [("valid", u("o", 1)), ("data", u("i", 4, 9))]
+    asig = [("x", u("i", 1)), ("data", u("o", 8, 5)),
+            ("a", {"t": "iface", "f": "o", "df": False, "sig": link, "dims": [2]}), ("y", u("o", 1))]
+    wrng = random.Random(1)
+    for r in annot_cases(wrng, (asig, [("Base", None, ["x", "data"], False), ("D1", 0, ["a", "y"], False)],
+                                [0, 1, 0, 1], "base-first")):
+        recs.append({**r, "witness": "annot"})
+    # a kept proxy: used once, then a sub-interface attribute / an array element of the wrapped object replaced
+    bus = [("a", u("o", 8)), ("b", u("i", 8, 1))]
+    ssig = [("x", {"t": "iface", "f": "o", "df": False, "sig": bus, "dims": []}),
+            ("y", {"t": "iface", "f": "o", "df": False, "sig": bus, "dims": [2]}), ("z9", u("i", 1))]
+    for member, index, how in (("x", [], "attr"), ("y", [1], "elem")):
+        for r in stale_cases(wrng, (False, ssig, {"route": "pure", "touch": "compliant", "member": member, "index": index,
+                                                  "how": how, "twice": False})):
+            recs.append({**r, "witness": "stale-" + how})
     recs = [r for r in recs if r is not None]
     with concurrent.futures.ProcessPoolExecutor(max_workers=workers) as ex:
-        futs = [ex.submit(work, s, per["trees"], per["tuples"], per["meta"], quick, per["hetero"], per["reuse"])
+        futs = [ex.submit(work, s, per["trees"], per["tuples"], per["meta"], quick, per["hetero"], per["reuse"],
+                          per["annot"], per["stale"])
                 for s in seeds]
         for f in futs:
             recs.extend(f.result())
@@ -1937,7 +2286,13 @@ def run(chk):
             args = rec["args"]
             impl = rec["impl"]
             routes = rec.get("routes")
-            chk.distinct(("connect", rec["req"], tuple(routes or ())), nontrivial=any(a[1] for a in args))
+            extra_key = repr(rec.get("annot") or rec.get("stale") or "")
+            chk.distinct(("connect", rec["req"], tuple(routes or ()), extra_key), nontrivial=any(a[1] for a in args))
+            if rec.get("annot") is not None:
+                chk.hist("annot_connect", f"{'base' if rec['annot']['class'] == 'Base' else 'subclass'}/{rec['annot']['pattern']}: "
+                                          f"impl {impl['result']}")
+            if rec.get("stale") is not None:
+                chk.hist("stale_proxy_connect", f"touch:{rec['stale']['touch']}/replace:{rec['stale']['how']}: impl {impl['result']}")
             chk.hist("connect_label", rec["label"] + ("+routes" if routes else "")); chk.hist("n_args", len(args))
             for h_, r_ in enumerate(routes or []):
                 dfl = route_direct_flipped(r_, args[h_][0])
@@ -2045,6 +2400,74 @@ def run(chk):
                 if r["result"] != "error:notCompliant":
                     report("connect-obj", f"[{rec['label']}] {where} no longer matches its signature, but connect() "
                            f"({which}) gives {r['result']} instead of ConnectionError", rec, resp, set(), True)
+        elif kind == "annot":
+            sig, an = rec["sig"], rec["annot"]
+            chk.distinct(("annot", rec["req"], an["hierarchy"], an["class"], tuple(an["instantiated_before"])), nontrivial=True)
+            role = "base" if an["class"] == "Base" else "redefining-subclass" if an["redefines"] else \
+                   "subclass-without-annotations" if not an["own"] else "subclass"
+            chk.hist("annot_hierarchy", an["hierarchy"]); chk.hist("annot_order", an["pattern"])
+            chk.hist("annot_instance", f"{role}/{'an-ancestor-instantiated-before' if an['ancestor_before'] else 'no-ancestor-instantiated-before'}"
+                                       f"/{'first' if an['nth'] == 0 else 'repeated'}")
+            who = (f"Component class {an['class']} of the hierarchy {an['classes']} (instantiated before: "
+                   f"{an['instantiated_before']})")
+            if an["redefines"]:
+                chk.hist("annot_outcome", rec["build"].split(":")[1] if rec["build"] != "ok" else "ok")
+                if not rec["build"].startswith("error:NameError"):
+                    report("annot", f"{who} redefines the member {an['own'][0]!r} of a base class; instantiating it gives "
+                           f"{rec['build'][:60]} (members {rec.get('names')}), not NameError", rec, resp, set(), True)
+                continue
+            chk.hist("annot_outcome", rec["build"].split(":")[1] if rec["build"] != "ok" else "ok")
+            if rec["build"] != "ok":
+                report("annot", f"instantiating {who} failed: {rec['build']}", rec, resp, set(), True)
+                continue
+            f10c = lambda txt: ({"F10"} if ("F10:TypeError" in str(txt) and has_iface_array(sig)) else set())
+            want_names = sorted(n for n, _m in sig)
+            if rec["names"] != want_names:
+                report("annot", f"{who}: signature members are {rec['names']}, the annotations along its MRO declare "
+                       f"{want_names}", rec, resp, set(), True)
+            for key, through in (("top", "its own signature"), ("top_expected", "the signature its annotations describe")):
+                if rec[key] != d["spec"]:
+                    report("annot", f"{who}: flatten through {through} gives {rec[key][:80]!r}, the leaves are "
+                           f"{d['spec'][:80]!r}", rec, resp, f10c(rec[key]), True)
+            want_nested = expected_nested(sig, d["spec"])
+            if rec["nested"] != want_nested:
+                report("annot", f"{who}: sub-interfaces report their own leaves as {rec['nested'][:100]!r}, below them are "
+                       f"{want_nested[:100]!r}", {**rec, "expected_nested": want_nested}, resp, f10c(rec["nested"]), True)
+            if rec["compliant"] != "ok:1":
+                report("annot", f"{who}: does not comply with the signature its annotations describe: {rec['compliant']}",
+                       rec, resp, {"F10"} if (rec["compliant"] == "error:TypeError" and has_iface_array(sig)) else set(), True)
+            if rec["meta"] != d["meta"]:
+                report("annot", f"{who}: as_json() ports {rec['meta'][:80]!r} are not the leaves {d['meta'][:80]!r}", rec, resp,
+                       f10c(rec["meta"]), True)
+            elif rec["valid"] is not True:
+                report("annot", f"{who}: as_json() output does not validate against the schema: {rec['valid']}", rec, resp,
+                       set(), True)
+        elif kind == "stale":
+            sig, fl, sc = rec["sig"], rec["fl"], rec["stale"]
+            chk.distinct(("stale", rec["req"], repr(sorted(sc.items()))), nontrivial=True)
+            chk.hist("stale_proxy_scenario", f"{sc['route']}/touch:{sc['touch']}/replace:{sc['how']}"
+                                             + (":" + sc["deep_how"] if sc["how"] == "deep" else "") + ("/twice" if sc["twice"] else ""))
+            chk.hist("stale_proxy_replaced_leaves", min(rec.get("replaced_leaves", -1), 8))
+            what = (f"kept proxy flipped(intf) ({sc['route']}), used by {sc['touch']!r}, then {sc['member']!r}{sc['index']} of intf "
+                    f"replaced ({sc['how']}" + (", twice" if sc["twice"] else "") + ")")
+            if rec["build"] != "ok":
+                report("stale", f"{what}: the scenario could not be built: {rec['build']}", rec, resp,
+                       {"F10"} if ("F10:" in rec["build"] and has_iface_array(sig)) else set(), True)
+                continue
+            f10c = lambda txt: ({"F10"} if ("F10:TypeError" in str(txt) and has_iface_array(sig)) else set())
+            if rec["top"] != d["spec"]:
+                report("stale", f"{what}: flatten through the proxy gives {rec['top'][:80]!r}, the leaves are {d['spec'][:80]!r}",
+                       rec, resp, f10c(rec["top"]), True)
+            if rec["ident"] != []:
+                report("stale", f"{what}: flatten through the proxy does not reach the signals the wrapped object holds now, at "
+                       f"{rec['ident'][:4] if isinstance(rec['ident'], list) else rec['ident']}", rec, resp, f10c(rec["ident"]), True)
+            want_nested = expected_nested(sig, d["spec"])
+            if rec["nested"] != want_nested:
+                report("stale", f"{what}: sub-interfaces reached through the proxy report {rec['nested'][:100]!r}, below them are "
+                       f"{want_nested[:100]!r}", {**rec, "expected_nested": want_nested}, resp, f10c(rec["nested"]), True)
+            if rec["compliant"] != "ok:1":
+                report("stale", f"{what}: the proxy does not comply with its signature: {rec['compliant']}", rec, resp,
+                       {"F10"} if (rec["compliant"] == "error:TypeError" and has_iface_array(sig)) else set(), True)
         elif kind == "meta":
             chk.distinct(("meta", rec["req"]), nontrivial=bool(rec["sig"]))
             chk.hist("meta_component_signature", "flipped" if rec["fl"] else "plain")
@@ -2082,7 +2505,8 @@ def run(chk):
     chk.extra["simulated_connects"] = n_sim
     chk.extra["exhaustive"] = {"witnesses": "F10 (p19), F13 (repro c14_connect_array_of_interfaces), dims boundary (p16), input-only leaf with "
                                             "differing init / width (2 and 3 arguments) and its matching control, Member object reused "
-                                            "scalar-then-array run on every invocation",
+                                            "scalar-then-array, annotated Base-then-subclass hierarchy and kept-proxy replacement "
+                                            "(attribute + array element after a first use) run on every invocation",
                                "corruption kinds": "every kind listed under distribution.connect_label / obj_corruption at one random site per tuple"}
     chk.cov["rule"] = ("random signature trees (depth<=4, <=2 dims incl. 0, 12 names, shapes: unsigned/signed/int/range/StructLayout/"
                        "UnionLayout/ArrayLayout/Enum(un/signed)/Struct and Union classes with field defaults/custom ShapeCastable with "
@@ -2103,6 +2527,18 @@ def run(chk):
                        "2-3 signatures: flatten of both views by all routes, members.flatten() listing, create+is_compliant, connect "
                        "with flipped twins + simulation, all judged against the abstract tree; "
                        "component metadata on plain and flipped signatures; "
+                       "Component classes built from variable annotations WITH INHERITANCE (Base with >=1 member; D1(Base), sibling "
+                       "D2(Base) possibly declaring the same names, E(D1), Mid(Base) without annotations + F(Mid), R(any) redefining an "
+                       "inherited member -> NameError), instantiated base-first / derived-first / base-never / at random, with "
+                       "repetitions: per instance member names, flatten through its own and through an independently written expected "
+                       "signature, sub-interfaces' own flatten, is_compliant, metadata + schema; then connect of an instance of every "
+                       "instantiated class with flipped(expected).create() + simulation; "
+                       "kept FlippedInterface proxies (flipped(PureInterface(S.flip())) / flipped(Component(S.flip()))): used by "
+                       "none / is_compliant / flatten / getattr / a sub-interface's flatten / connect, then a sub-interface member of "
+                       "the WRAPPED object replaced by that of a second object of the same signature (whole attribute, one array "
+                       "element, a sub-sub-interface one level down, or - control - by assignment through the proxy), once or twice, "
+                       "then flatten (leaves and identity of the signals against raw navigation of the wrapped object), "
+                       "sub-interfaces' own flatten, is_compliant, connect with the flipped twin + simulation; "
                        "plus object-side corruptions (a leaf signal of one "
                        "created interface replaced by one with another init / width, at a random leaf and at view-held "
                        "(Struct/Union/ArrayLayout/Enum) leaves): is_compliant False and ConnectionError in both orders; "
@@ -2114,6 +2550,11 @@ def run(chk):
         "initial values are generated within the range of the member's shape: for plain shapes Member.__init__ keeps the raw "
         "value while Signal normalises it, so Out(unsigned(4), init=-1).create() does not comply (Signal warns about such inits)",
         "signature subclasses with custom create()/__eq__/annotations are not generated (anonymous Signature only)",
+        "annotated Component hierarchies use single inheritance only (chains and siblings below one base; no mixins, no "
+        "multiple inheritance); their classes are made with type(name, bases, {'__annotations__': ...}); the expected members of "
+        "a class are the annotations of its bases, base first, then its own (Component.__init__'s walk of the reversed MRO)",
+        "kept-proxy scenarios replace sub-interfaces only by structurally identical ones (taken from a second object built on "
+        "the same signature); replacing by non-compliant values through a kept proxy is not exercised",
         "connect() keyword arguments (handles by name) are not exercised; handles are positions",
         "metadata schema validation uses ComponentMetadata.validate (jschon, local 2020-12 catalog; no network needed)",
         "the constant value of layouts/enums as a port's initial value is recomputed by the harness (struct/union/array packing; "
